@@ -43,4 +43,28 @@ CHECKS = {
   "technique": "Coq proof of kernel refinement + regenerated-source "
                "equivalence lemmas + vm_compute correspondence",
  },
+ "C02": {
+  "text": "Theorems (all graphs, weights, nodes, proportions, directed or not): "
+          "every term of a deep-embedded expression language (sums weighted by "
+          "node weights, max over nodes, A+ entries, link attributes, bounded "
+          "reachability, group membership, +,-,*,/,min,max) has the same value "
+          "on every weighted pullback of the graph; splitted_copy as the code "
+          "builds it (adjacency blocks, weights, attribute blocks, twin joins "
+          "v's groups) is such a pullback along orig; pullbacks compose "
+          "(iterated splits). 41 n.s.i. measures of Network / "
+          "InteractingNetworks are defined as terms and proved closed, so "
+          "global / per-node / pairwise invariance follows for each. The terms "
+          "and the split model are compared with the implementation inside "
+          "Coq on exhaustive small graphs and random graphs. Betweenness "
+          "family, spreading, eigenvector centrality: no term, direct "
+          "split-vs-original comparison on the implementation only (partial).",
+  "design_ref": "DESIGN.md section 5, C02",
+  "note": "trusted: that each measure term is the code's formula is "
+          "established by correspondence (vm_compute vs implementation, "
+          "rtol 1e-9), not by proof; true graph distance = bounded "
+          "reachability for bound >= N is validated by correspondence; "
+          "igraph distances; float evaluation",
+  "technique": "Coq proof: pullback theorem by structural induction + "
+               "split_is_pullback; vm_compute correspondence of measure terms",
+ },
 }
